@@ -236,6 +236,7 @@ class ReqC08Long(c07req.ReqC07Part):
 
 PART = ReqC08Enum()
 PART_LONG = ReqC08Long()
+PARTS = [PART, PART_LONG]      # (vlib/combine.py takes PARTS when present: without it the combined C08 ran the enumeration part only)
 
 CLAIM_TEXT = ("REQ: kernel-checked theorems about the Lean model of req_compactor/req_sketch over ALL histories (any number of live sketches, "
               "updates, merges, copies, queries), every k and both modes, for BOTH shapes of the compactor constructor (constant initial coin "
